@@ -64,7 +64,16 @@ Inductive kind :=
    an answer tape for the square roots that is validated by squaring.  Executed with Qops only (the model divides). *)
 | KNormalize (w : option (list F)) (fs : list (tensor F)) (sc : list (list F)) (w' : list F) (fs' : list (tensor F))
 (* direct call of tucker_normalize((G, fs)) -> (G', fs'); sc = column norms of the factors (validated tape).  Qops only. *)
-| KTuckerNormalize (G : tensor F) (fs : list (tensor F)) (sc : list (list F)) (G' : tensor F) (fs' : list (tensor F)).
+| KTuckerNormalize (G : tensor F) (fs : list (tensor F)) (sc : list (list F)) (G' : tensor F) (fs' : list (tensor F))
+(* direct call of error_calc with ALL its arguments: the model selects the branch itself (Model/Errors.v:error_calc_model) and computes the
+   sparse component itself; M = the implementation's MTTKRP of the last mode (None = not handed over); card = None for a falsy sparsity *)
+| KErrCalcFull (X : tensor F) (R : nat) (w : option (list F)) (fs : list (tensor F)) (card : option nat) (mask M : option (tensor F)) (rep : F)
+(* loops that record one value per iteration (tucker, partial_tucker, non-negative Tucker variants, CMTF, randomised CP): number of recorded
+   values for n_iter_max iterations and a callback that stops the run in iteration cb_stop_at *)
+| KSLoop (n_iter_max : nat) (cb_stop_at : option nat) (n_reported : nat)
+(* the two hypotheses of C06_hooi_error_identity validated on the decomposition an (unmasked) HOOI run returns: every factor has
+   orthonormal columns and the core is X x_k U_k^T (both up to rounding) *)
+| KHooiHyp (X G : tensor F) (fs : list (tensor F)).
 
 (* canonical form of an event list, applied to BOTH sides: what matters for "which iterate does an error belong to" is the order of
    the block updates, the kind and position of the error computations and the callbacks.  A normalisation is kept only where it
@@ -154,6 +163,15 @@ Definition agree_kind (k : kind) : bool :=
       && forallb (fun k => forallb (fun i => forallb (fun r => qclose atol rtol (toQ (out k i r)) (toQ (st' k i r))) (seq 0 R))
                                    (seq 0 (nth k s 0%nat))) (seq 0 N)
       && forallb (fun r => qclose atol rtol (toQ (out N 0%nat r)) (toQ (st' N 0%nat r))) (seq 0 R)
+  | KErrCalcFull X R w fs card mask M rep => rel_close (error_calc_model Op X R w fs card mask M) rep
+  | KSLoop n stop_at n_rep => Nat.eqb (s_loop_count n stop_at) n_rep
+  | KHooiHyp X G fs =>
+      let s := shape X in let rs := shape G in let us := matsT Op fs in
+      Nat.eqb (length fs) (length s) && Nat.eqb (length rs) (length s) &&
+      forallb (fun k => let u := nth k us (fun _ _ => f0 Op) in let d := nth k s 0%nat in let r := nth k rs 0%nat in
+                        forallb (fun a => forallb (fun b => qclose atol rtol (toQ (gram Op d (fun i => u i a) (fun i => u i b)))
+                                                                   (if Nat.eqb a b then 1 else 0)) (seq 0 r)) (seq 0 r)) (seq 0 (length s)) &&
+      q_list_close atol rtol (map toQ (data (tabulate rs (project Op s (tfun Op X) us)))) (map toQ (data G))
   | KTuckerNormalize G fs sc G' fs' =>
       let s := rows_of fs in let N := length fs in
       let rk := fun k => nth 1%nat (shape (nth k fs (mk [] []))) 0%nat in
